@@ -224,6 +224,17 @@ def r3_cache(prog, res):
     res.add("R3.cache_real_objects_only", "R3|src/cllazyfile/lazyInstMgr.cc|loadInstance|cache-insert", f.where(ins[0]) if ins else f.where(), okc,
             "only a real object, keyed by the requested id, is entered into the cache" if okc else
             "the cache insert of loadInstance is no longer guarded by !isNilSTEPentity(inst) / keyed by the id asked for")
+    # the stream position of the interrupted reader is restored after everything that can move the stream
+    seeks = [c for c in f.calls() if (c.get("fn") or "").endswith("::seekg")]
+    movers = [c for c in f.walk() if (c["k"] == "Call" and (c.get("fn") or "").endswith("getRealInstance")) or
+              (c["k"] == "Construct" and (c.get("fn") or "") == "lazyRefs::lazyRefs")]
+    late = [(s_, m) for s_ in seeks for m in movers if cfg.reaches(cfg.locate(s_), cfg.locate(m))]
+    guarded = all(any("reSeek" in expr_str(a["ch"][0]) for a in f.ancestors(s_) if a["k"] == "If") for s_ in seeks)
+    oks = bool(seeks) and len(movers) >= 2 and not late and guarded
+    res.add("R3.stream_restored_last", "R3|src/cllazyfile/lazyInstMgr.cc|loadInstance|reseek", f.where(seeks[0]) if seeks else f.where(), oks,
+            "when asked to (reSeek) the stream position is put back after the instance was read and its inverse attributes were resolved" if oks else
+            "the stream position is restored before %s: what follows loads further instances and moves the stream, so the reader that was "
+            "interrupted continues at the wrong offset" % (", ".join(sorted({(m.get("fn") or "").split("::")[-1] for _, m in late})) or "nothing (no restore / no mover found)"))
     n = 0
     for g in prog.all_functions():
         for c in g.calls():
